@@ -40,9 +40,19 @@ def extend(g, api):
           r'if self\.spaces\[space_id\]\.loss_probes != 0 && !datagram_is_loss_probe \{ self\.spaces\[space_id\]\.loss_probes -= 1; datagram_is_loss_probe = true; \}',
           'coalescing branch: Data-space packets behind an unchecked datagram are tested; a probe riding in a foreign datagram consumes its credit')
     shape('sgDatagramStartShape', 'poll_transmit',
-          r'datagram_is_loss_probe = self\.spaces\[space_id\]\.loss_probes != 0; let next_datagram_size_limit = match self\.spaces\[space_id\]\.loss_probes \{ 0 => segment_size, _ => \{ self\.spaces\[space_id\]\.loss_probes -= 1;'
+          r'datagram_is_loss_probe = self\.spaces\[space_id\]\.loss_probes != 0; let probe_may_follow = spaces\[space_idx \+ 1\.\.\] \.iter\(\) \.any\(\|&id\| self\.spaces\[id\]\.loss_probes != 0\); let next_datagram_size_limit = match self\.spaces\[space_id\]\.loss_probes \{ 0 if !probe_may_follow => segment_size, 0 => cmp::min\(segment_size, usize::from\(INITIAL_MTU\)\), _ => \{ self\.spaces\[space_id\]\.loss_probes -= 1;'
           r'.*?datagram_start = buf\.len\(\); datagram_congestion_checked = ack_eliciting;',
-          'datagram start: credit consumed, `datagram_is_loss_probe`, `datagram_congestion_checked = ack_eliciting`')
+          'datagram start: credit consumed, `datagram_is_loss_probe`, look-ahead clamp `probe_may_follow` over the later spaces, `datagram_congestion_checked = ack_eliciting`')
+    shape('sgSpaceOrderShape', 'poll_transmit',
+          r'let mut space_idx = 0; let spaces = \[SpaceId::Initial, SpaceId::Handshake, SpaceId::Data\]; while space_idx < spaces\.len\(\) \{ let space_id = spaces\[space_idx\];',
+          'the loop visits the spaces in the order Initial, Handshake, Data (`space_idx` is only ever incremented: `sgSpaceIdxOnlyIncrements`)')
+    def only_increments():
+        b = body('poll_transmit')
+        writes = re.findall(r'space_idx\s*([-+*/]?=)\s*([^;]*);', b)
+        if not writes or any(w != ('+=', '1') for w in writes[1:]) or writes[0] != ('=', '0'):
+            raise TranslateError(f'poll_transmit: space_idx is written other than `= 0` once and `+= 1`: {writes}')
+        return len(writes) - 1
+    g.nat('sgSpaceIdxOnlyIncrements', f'{MOD}::Connection::poll_transmit number of `space_idx += 1` sites (no other write after `let mut space_idx = 0`)', only_increments)
     shape('sgCloseNotAckElicitingShape', 'poll_transmit',
           r'if close \{ ack_eliciting = false; \}',
           'a closing packet is never held back (`ack_eliciting = false`)')
